@@ -110,6 +110,25 @@ Proof.
   rewrite <- (Zplus_mod_idemp_l i), E, Zplus_mod_idemp_l. reflexivity.
 Qed.
 
+(* the logical start position of a reader: congruent to its first index, at most c_pre, less than a
+   capacity behind it *)
+Lemma rd_start_mod c t : rd_start c t mod cap c = c_idx0 c t mod cap c.
+Proof.
+  unfold rd_start. pose proof (cap_pos c) as HK.
+  rewrite Zminus_mod_idemp_r. f_equal. lia.
+Qed.
+Lemma rd_start_range c t : c_pre c - cap c < rd_start c t <= c_pre c.
+Proof.
+  unfold rd_start. pose proof (cap_pos c) as HK.
+  pose proof (Z.mod_pos_bound (c_pre c - c_idx0 c t) (cap c) HK). lia.
+Qed.
+(* a reader that starts at the cursor (first index congruent to c_pre) starts at position c_pre *)
+Lemma rd_start_at_cursor c t : c_idx0 c t mod cap c = c_pre c mod cap c -> rd_start c t = c_pre c.
+Proof.
+  intros E. unfold rd_start. pose proof (cap_pos c) as HK.
+  rewrite Zminus_mod, E, Z.sub_diag, Z.mod_0_l by lia. lia.
+Qed.
+
 (* ---------------- small helpers ---------------- *)
 Lemma zupd_same f k x : zupd f k x k = x.
 Proof. unfold zupd. now rewrite Z.eqb_refl. Qed.
